@@ -57,8 +57,8 @@ int main(void) {
     static char line[1 << 20];
     setvbuf(stdout, NULL, _IOFBF, 1 << 16);
     while (fgets(line, sizeof line, stdin)) {
-        char* tok[16]; int nt = 0;
-        for (char* t = strtok(line, " \r\n"); t && nt < 16; t = strtok(NULL, " \r\n")) tok[nt++] = t;
+        static char* tok[8192]; int nt = 0;
+        for (char* t = strtok(line, " \r\n"); t && nt < 8192; t = strtok(NULL, " \r\n")) tok[nt++] = t;
         if (!nt) continue;
         /* progress marker for crash localisation */
         if (!strcmp(tok[0], "case")) { printf("case %s\n", nt > 1 ? tok[1] : "?"); fflush(stdout); continue; }
